@@ -89,10 +89,13 @@ func (r *TrafficRoutingReconciler) Reconcile(ctx context.Context, req ctrl.Reque
 	}
 	klog.Infof("Begin to reconcile TrafficRouting %v", util.DumpJSON(tr))
 
-	// handle finalizer
-	err = r.handleFinalizer(tr)
-	if err != nil {
-		return ctrl.Result{}, err
+	// handle finalizer: it is registered here; for an object that is being deleted it is removed below,
+	// only once the traffic routing has been finalised
+	if tr.DeletionTimestamp.IsZero() {
+		err = r.handleFinalizer(tr)
+		if err != nil {
+			return ctrl.Result{}, err
+		}
 	}
 	newStatus := tr.Status.DeepCopy()
 	if newStatus.Phase == "" {
